@@ -41,9 +41,15 @@ type config struct {
 	broadcast string // "" | "192.168.1.255:60000" | "192.168.1.255:60005" | unusual ones (0.0.0.0:54321 ...)
 	bystander bool
 	newDevice bool
+	// fd0: the process was started with its standard streams closed - the first socket the client opens
+	// is descriptor 0, the next ones 1, 2 (a valid descriptor like any other)
+	fd0 bool
 }
 
 func (c config) String() string {
+	if c.fd0 {
+		return fmt.Sprintf("ctrl=%s proto=%q bind=%q bcast=%q bystander=%v newDevice=%v standard-streams-closed", c.ctrl, c.protocol, c.bind, c.broadcast, c.bystander, c.newDevice)
+	}
 	return fmt.Sprintf("ctrl=%s proto=%q bind=%q bcast=%q bystander=%v newDevice=%v", c.ctrl, c.protocol, c.bind, c.broadcast, c.bystander, c.newDevice)
 }
 
@@ -121,6 +127,9 @@ func scenarioN(cs []config) e1.Scenario {
 			}
 		}
 		vs.Net().Env = f
+		if len(cs) > 0 && cs[0].fd0 {
+			vs.Net().FdBase = 0
+		}
 		opIx = vs.Choose(len(spec.Ops), "operation")
 		op := &spec.Ops[opIx]
 		m := []int{0}
@@ -346,7 +355,7 @@ func main() {
 							if ctrl == "192.168.1.255:60000" && proto == "tcp" {
 								continue // a TCP connection to a broadcast address cannot be attempted at all (the model, like the kernel, refuses it before anything is observable)
 							}
-							scenarios = append(scenarios, scenario(config{ctrl, proto, bind, bcast, by, nd}))
+							scenarios = append(scenarios, scenario(config{ctrl, proto, bind, bcast, by, nd, false}))
 						}
 					}
 				}
@@ -359,8 +368,16 @@ func main() {
 		for _, bind := range []string{"", "192.168.1.2:54321"} {
 			for _, bcast := range []string{"0.0.0.0:54321", "0.0.0.0:60000", "255.255.255.255:60005", "10.255.255.255:60000", "192.168.1.100:60000"} {
 				for _, nd := range []bool{false, true} {
-					scenarios = append(scenarios, scenario(config{ctrl, "udp", bind, bcast, false, nd}))
+					scenarios = append(scenarios, scenario(config{ctrl, "udp", bind, bcast, false, nd, false}))
 				}
+			}
+		}
+	}
+	// a process whose standard streams are closed: the sockets get descriptors 0, 1, 2
+	for _, ctrl := range []string{"none", "192.168.1.100:60000"} {
+		for _, proto := range []string{"udp", "tcp"} {
+			for _, bind := range []string{"", "192.168.1.2:54321"} {
+				scenarios = append(scenarios, scenario(config{ctrl, proto, bind, "", false, false, true}))
 			}
 		}
 	}
@@ -370,7 +387,7 @@ func main() {
 		for _, proto := range []string{"udp", "tcp"} {
 			for _, bind := range []string{"", "192.168.1.2:54321", "192.168.1.3:54321"} {
 				for _, bcast := range []string{"", "192.168.1.255:60005"} {
-					reduced = append(reduced, config{ctrl, proto, bind, bcast, false, false})
+					reduced = append(reduced, config{ctrl, proto, bind, bcast, false, false, false})
 				}
 			}
 		}
@@ -405,7 +422,7 @@ func main() {
 	if r.Worker == "" && r.Replay == "" {
 		e1.Conformance(r)
 	}
-	r.Rule("full cross product of 7 target-controller configurations (one of them the directed broadcast address of the simulated host's own subnet, as net.Interfaces reports it under the model) x 6 protocol strings x 6 bind addresses (two of them with the fixed port equal to the port of the default / configured broadcast address, one equal to a controller's port) x 3 broadcast settings x bystander controller x constructor (2952 configurations), each x 32 operations x controllers {silent, answering} as environment choices; 80 more configurations with unusual configured broadcast addresses (0.0.0.0 with a port, 255.255.255.255 on another port, other directed broadcasts, a unicast address); plus every ordered pair (thorough: also every ordered triple over the 12 UDP ones) of 24 reduced configurations {unconfigured, configured} x {udp, tcp} x {no bind, two different local addresses on the same fixed port} x {default, configured broadcast address} as clients used one after the other in one process, each call judged against its own client's configuration; and the 16 fixed-bind-port ones with the bind port already held (UDP and TCP port space) by other sockets of the host (a call may fail without sending, but nothing may leave from another source); distinct = distinct (transport, destination, answered) labels")
+	r.Rule("full cross product of 7 target-controller configurations (one of them the directed broadcast address of the simulated host's own subnet, as net.Interfaces reports it under the model) x 6 protocol strings x 6 bind addresses (two of them with the fixed port equal to the port of the default / configured broadcast address, one equal to a controller's port) x 3 broadcast settings x bystander controller x constructor (2952 configurations), each x 32 operations x controllers {silent, answering} as environment choices; 8 configurations in a process whose standard streams are closed (socket descriptors 0, 1, 2); 80 more configurations with unusual configured broadcast addresses (0.0.0.0 with a port, 255.255.255.255 on another port, other directed broadcasts, a unicast address); plus every ordered pair (thorough: also every ordered triple over the 12 UDP ones) of 24 reduced configurations {unconfigured, configured} x {udp, tcp} x {no bind, two different local addresses on the same fixed port} x {default, configured broadcast address} as clients used one after the other in one process, each call judged against its own client's configuration; and the 16 fixed-bind-port ones with the bind port already held (UDP and TCP port space) by other sockets of the host (a call may fail without sending, but nothing may leave from another source); distinct = distinct (transport, destination, answered) labels")
 	r.Assume("reference routing function route() in this file, written from the property statement; protocol strings other than exactly \"tcp\" mean UDP")
 	r.Assume("simulated network: source address = bind address, ephemeral port when the bind port is 0")
 	r.Finish()
